@@ -366,7 +366,7 @@ def load_known_findings():
 # --------------------------------------------------------------------------
 
 class Ctx:
-    def __init__(self, pid, tier, seed):
+    def __init__(self, pid, tier, seed, clean=True):
         self.pid = pid
         self.tier = tier
         self.seed = seed
@@ -385,6 +385,8 @@ class Ctx:
         self._distinct = set()
         self.kf = load_known_findings()
         os.makedirs(os.path.join(VERIF, "evidence", "replay"), exist_ok=True)
+        for old in (glob.glob(os.path.join(VERIF, "evidence", "replay", pid + "-*")) if clean else []):
+            os.unlink(old)
 
     # ---- building -------------------------------------------------------
     def build(self, variant="asan"):
